@@ -285,6 +285,8 @@ func (fr *oFrame) storeIndex(x *ast.IndexExpr, v oval) oCtl {
 
 // rangeStmt interprets `for k, v := range X` over a slice or an integer.
 func (fr *oFrame) rangeStmt(s *ast.RangeStmt) oCtl {
+	myLabel := fr.curLabel
+	fr.curLabel = ""
 	saved := fr.env
 	defer func() { fr.env = saved }()
 	xv := fr.eval(s.X)
@@ -322,6 +324,13 @@ func (fr *oFrame) rangeStmt(s *ast.RangeStmt) oCtl {
 			}
 		}
 		c := fr.block(s.Body.List)
+		if c == oLabelled && myLabel != "" && fr.pendingLabel == myLabel {
+			fr.pendingLabel = ""
+			if fr.pendingTok == token.BREAK {
+				return oNormal
+			}
+			continue
+		}
 		switch c {
 		case oBreak:
 			return oNormal
